@@ -188,7 +188,10 @@ class ESSearch(ABC):
             us = us_candidates[z_idx[0:N]]  # zlist in Matlab is not used
 
             if i < self.n_search_iter - 1:
-                frac = n_new / ntest
+                # (a generation without any survivor: no success rate to speak
+                # of, and 0/0 would turn the scale - and the next generation -
+                # into NaN)
+                frac = n_new / ntest if ntest > 0 else 0.0
                 # Update scale parameter
                 if i > 0:
                     self.scale = self.scale * np.exp(
